@@ -524,6 +524,13 @@ def _correspond_case(ck, op, call, sp, ans, stats):
         _cmp("output Var (type, has value) under value propagation",
              [[k, t, hv] for k, t, hv in zip(out_keys(cls, call), sp["types"], sp["has_value"])],
              [[k, t, v is not None] for k, t, v in ans["vp"]], d)
+    # round 10: every attached ndarray value passes the model's `propCheck` against the type `construct` reports
+    if "values_fit" in ans and sp["raised"] is None and not patched:
+        for k, fit in ans["values_fit"]:
+            stats["attached_values_checked"] += 1
+            if not fit:
+                f = [x for x in (sp.get("value_facts") or []) if isinstance(x, list)]
+                d.append(f"output {k} carries a value that does not fit the reported type (model propCheck false): value facts {f}, types {json.dumps(sp['types'])[:200]}")
     # the oracle's hand-built model is the model's `handModel`
     if not ans["untyped"] and not call.get("sub"):
         try:
@@ -1019,6 +1026,15 @@ def run(ck: core.Check):
         if "error" in ans or ans["kinds_ok"] != ok:
             stats["mismatches"] += 1
             brk(ck, "correspondence", f"kind check: {op.key}", f"real Inputs(...) {'accepted' if ok else 'raised TypeError'}; model {ans}"[:600] + f" args={req['args']}")
+
+    # 3. round 10: Type._subtype / Shape.__le__ / PropValue.check / the attach loop of Node.inference
+    #    against Model/Subtype.lean on generated inputs (near misses of fitting pairs)
+    try:
+        from harness import lib_c05_subtype as LS
+
+        ck.cov["subtype_check_tie"] = LS.run_stage(ck, brk, ck.pick(2000, 20000), ck.pick(2000, 20000), ck.pick(400, 4000))
+    except Exception as e:  # noqa: BLE001
+        brk(ck, "correspondence", "subtype / PropValue.check tie could not be run", f"{type(e).__name__}: {e}"[:300])
 
     # ------------------------------------------------------------------ evidence
     totals = collections.Counter()
